@@ -110,6 +110,7 @@ def recv(sock: socket.socket, bufsize: int) -> bytes:
 
         if r:
             return sock.recv(bufsize)
+        raise socket.timeout("timed out")
 
     try:
         if sock.gettimeout() == 0:
